@@ -289,6 +289,7 @@ type GraphOpts struct {
 	NoDocker   bool
 	NoArtifact bool
 	OneDigest  bool // all digests distinct (stores keyed by digest only)
+	AliasNames bool // with Titles: some blobs share a file name (different content under one name)
 }
 
 var aTypes = []string{"application/vnd.example.sbom", "application/vnd.example.sig", "application/vnd.test+type", ""}
@@ -311,6 +312,7 @@ func GenGraph(r *Rand, o GraphOpts) *GraphSpec {
 	}
 	blobTypes := []string{mtOctet, mtOCILayer, mtOCILayerGzip, mtOCIConfig, mtEmptyJSON, mtDockerLayer, "text/plain"}
 	titles := 0
+	var usedTitles []string
 	for i := 0; i < nBlobs; i++ {
 		ns := NodeSpec{Kind: "blob", Subject: -1, MT: pick(r, blobTypes)}
 		switch x := r.Intn(12); {
@@ -338,6 +340,10 @@ func GenGraph(r *Rand, o GraphOpts) *GraphSpec {
 			if r.Chance(0.3) {
 				ns.Title = fmt.Sprintf("dir%d/file%d.bin", titles, titles)
 			}
+			if o.AliasNames && len(usedTitles) > 0 && r.Chance(0.3) {
+				ns.Title = pick(r, usedTitles) // another blob already claims this name
+			}
+			usedTitles = append(usedTitles, ns.Title)
 		}
 		{
 			// no two nodes with the same (mediaType, bytes): they would be one node
